@@ -769,6 +769,303 @@ fn record(tier: &str, out_dir: &str) {
     rep.print();
 }
 
+
+// ---- growth families (thorough tier, observation only): events for Trace_Grow.tla ---------------
+
+fn fmt_v(v: &V) -> String {
+    // the text form of a value written by the driver (input construction, also for invalid components)
+    let mut s = String::new();
+    match v.dprec.as_str() {
+        "Y" => s.push_str(&format!("{:04}", v.y)),
+        "M" => s.push_str(&format!("{:04}{:02}", v.y, v.m)),
+        "D" => s.push_str(&format!("{:04}{:02}{:02}", v.y, v.m, v.d)),
+        _ => {}
+    }
+    match v.tprec.as_str() {
+        "h" => s.push_str(&format!("{:02}", v.h)),
+        "m" => s.push_str(&format!("{:02}{:02}", v.h, v.mi)),
+        "s" => s.push_str(&format!("{:02}{:02}{:02}", v.h, v.mi, v.s)),
+        "f" => s.push_str(&format!("{:02}{:02}{:02}.{:0w$}", v.h, v.mi, v.s, v.f, w = v.fp as usize)),
+        _ => {}
+    }
+    if v.tz {
+        s.push(if v.off < 0 { '-' } else { '+' });
+        s.push_str(&format!("{:02}{:02}", v.off.abs() / 3600, v.off.abs() % 3600 / 60));
+    }
+    s
+}
+
+fn g_rand_v(rng: &mut Rng, kind: &str) -> V {
+    match kind {
+        "DA" => rand_date(rng, "DA", false),
+        "TM" => {
+            let mut v = V::zero("TM");
+            rand_time_into(rng, &mut v);
+            v
+        }
+        _ => rand_dt(rng),
+    }
+}
+
+/// a text for a date/time conversion: valid, padded, with trailing characters, with an impossible
+/// component, truncated, or arbitrary digits
+fn g_dt_text(rng: &mut Rng, kind: &str) -> (String, &'static str) {
+    let mut v = g_rand_v(rng, kind);
+    match rng.below(8) {
+        0 | 1 => (fmt_v(&v), "valid"),
+        2 => (format!("{}{}", fmt_v(&v), if rng.coin() { " " } else { "  " }), "valid, space padded"),
+        3 => (format!("{}{}", fmt_v(&v), rng.pick(&["x", "00", "-", "Z", ".", "\\20200101", " 1"])), "trailing characters"),
+        4 => {
+            match rng.below(6) {
+                0 if v.dprec != "Y" && v.dprec != "none" => v.m = *rng.pick(&[0u32, 13, 99]),
+                1 if v.dprec == "D" => {
+                    v.m = 2;
+                    v.d = *rng.pick(&[30u32, 31, 0, 32]);
+                }
+                2 if v.tprec != "none" => v.h = *rng.pick(&[24u32, 99]),
+                3 if v.tprec == "m" || v.tprec == "s" || v.tprec == "f" => v.mi = 60,
+                4 if v.tprec == "s" || v.tprec == "f" => v.s = 61,
+                _ if v.tz => v.off = *rng.pick(&[15 * 3600, -13 * 3600, 14 * 3600 + 60]),
+                _ => {
+                    if v.dprec == "D" {
+                        v.m = 4;
+                        v.d = 31;
+                    } else {
+                        return (format!("{}9", fmt_v(&v)), "odd number of digits");
+                    }
+                }
+            }
+            (fmt_v(&v), "impossible component")
+        }
+        5 => {
+            let t = fmt_v(&v);
+            let k = rng.below(t.len() as u64 + 1) as usize;
+            (t[..k].to_string(), "truncated")
+        }
+        6 => ((0..rng.below(16)).map(|_| char::from(b'0' + rng.below(10) as u8)).collect(), "random digits"),
+        _ => (rng.pick(&["", " ", "abcd", "2020-01-01", "10:30", "2020/01/01", "20200101T1030", "\u{661}\u{662}\u{663}\u{664}", "+0100", "2020 01"]).to_string(), "other text"),
+    }
+}
+
+fn g_todt(w: &mut NdjsonWriter, rng: &mut Rng) {
+    let kind = *rng.pick(&["DA", "TM", "DT"]);
+    let multi = rng.coin();
+    let n = if rng.below(3) == 0 { 1 + rng.below(3) as usize } else { 1 };
+    let use_str = n == 1 && rng.coin();
+    let mut texts = vec![];
+    let mut classes = vec![];
+    for _ in 0..n {
+        let (t, c) = g_dt_text(rng, kind);
+        texts.push(t);
+        classes.push(c);
+    }
+    let pv = if use_str { PrimitiveValue::Str(texts[0].clone()) } else { PrimitiveValue::Strs(texts.iter().cloned().collect()) };
+    let kind2 = kind.to_string();
+    let r = catch(move || -> Option<Vec<V>> {
+        match (kind2.as_str(), multi) {
+            ("DA", false) => pv.to_date().ok().map(|d| { let mut v = V::zero("DA"); proj_date(&mut v, &d); vec![v] }),
+            ("DA", true) => pv.to_multi_date().ok().map(|ds| ds.iter().map(|d| { let mut v = V::zero("DA"); proj_date(&mut v, d); v }).collect()),
+            ("TM", false) => pv.to_time().ok().map(|d| { let mut v = V::zero("TM"); proj_time(&mut v, &d); vec![v] }),
+            ("TM", true) => pv.to_multi_time().ok().map(|ds| ds.iter().map(|d| { let mut v = V::zero("TM"); proj_time(&mut v, d); v }).collect()),
+            (_, false) => pv.to_datetime().ok().map(|d| vec![proj_dt(&d)]),
+            (_, true) => pv.to_multi_datetime().ok().map(|ds| ds.iter().map(proj_dt).collect()),
+        }
+    });
+    let v = json!({"var": if use_str { "Str" } else { "Strs" }, "items": texts.iter().map(|t| cps_json(t)).collect::<Vec<_>>()});
+    let (panic, res) = match r {
+        Ok(Some(vs)) => (false, json!({"ok": true, "vals": vs.iter().map(|x| x.to_json()).collect::<Vec<_>>()})),
+        Ok(None) => (false, json!({"ok": false, "vals": []})),
+        Err(_) => (true, json!({"ok": false, "vals": []})),
+    };
+    w.emit(&json!({"ev": "todt", "kind": kind, "multi": multi, "what": classes.join(" | "), "text_shown": texts.join("\\"), "v": v, "panic": panic, "res": res}));
+}
+
+fn g_range_result(kind: &str, text: &str, via_value: bool) -> Value {
+    let (kind, text) = (kind.to_string(), text.to_string());
+    let bad = |panic: bool| json!({"ok": false, "hasStart": false, "start": zero_inst(), "hasEnd": false, "end": zero_inst(),
+                                   "tzStart": false, "tzEnd": false, "offStart": 0, "offEnd": 0, "panic": panic});
+    let r = catch(move || {
+        let pv = PrimitiveValue::from(text.as_str());
+        match kind.as_str() {
+            "DA" => {
+                let r = if via_value { pv.to_date_range().ok() } else { parse_date_range(text.as_bytes()).ok() };
+                r.map(|r| json!({"ok": true, "hasStart": r.start().is_some(), "start": r.start().map(inst_date).unwrap_or_else(zero_inst),
+                    "hasEnd": r.end().is_some(), "end": r.end().map(inst_date).unwrap_or_else(zero_inst), "tzStart": false, "tzEnd": false, "offStart": 0, "offEnd": 0}))
+            }
+            "TM" => {
+                let r = if via_value { pv.to_time_range().ok() } else { parse_time_range(text.as_bytes()).ok() };
+                r.map(|r| json!({"ok": true, "hasStart": r.start().is_some(), "start": r.start().map(inst_time).unwrap_or_else(zero_inst),
+                    "hasEnd": r.end().is_some(), "end": r.end().map(inst_time).unwrap_or_else(zero_inst), "tzStart": false, "tzEnd": false, "offStart": 0, "offEnd": 0}))
+            }
+            _ => {
+                let r = if via_value { pv.to_datetime_range().ok() } else { parse_datetime_range(text.as_bytes()).ok() };
+                r.map(|r| {
+                    let side = |p: Option<PreciseDateTime>| match p {
+                        None => (false, zero_inst(), false, 0),
+                        Some(PreciseDateTime::Naive(x)) => (true, inst_ndt(&x), false, 0),
+                        Some(PreciseDateTime::TimeZone(x)) => (true, inst_ndt(&x.naive_local()), true, x.offset().local_minus_utc()),
+                    };
+                    let (hs, st, tzs, os) = side(r.start());
+                    let (he, en, tze, oe) = side(r.end());
+                    json!({"ok": true, "hasStart": hs, "start": st, "hasEnd": he, "end": en, "tzStart": tzs, "tzEnd": tze, "offStart": os, "offEnd": oe})
+                })
+            }
+        }
+    });
+    match r {
+        Ok(Some(v)) => v,
+        Ok(None) => bad(false),
+        Err(_) => bad(true),
+    }
+}
+
+fn g_torange(w: &mut NdjsonWriter, rng: &mut Rng, fixed: Option<(&str, &str, &str)>) {
+    let (kind, text, what): (String, String, String) = match fixed {
+        Some((k, t, c)) => (k.into(), t.into(), c.into()),
+        None => {
+            let kind = *rng.pick(&["DA", "TM", "DT", "DT", "DT"]);
+            let mut a = g_rand_v(rng, kind);
+            let mut b = g_rand_v(rng, kind);
+            let mut what = "two values";
+            // order by year / hour most of the time
+            if rng.below(8) != 0 {
+                if kind == "TM" {
+                    if a.h > b.h { std::mem::swap(&mut a, &mut b); }
+                } else if a.y > b.y {
+                    std::mem::swap(&mut a, &mut b);
+                }
+            } else {
+                what = "possibly inverted";
+            }
+            let ta = fmt_v(&a);
+            let tb = fmt_v(&b);
+            let text = match rng.below(10) {
+                0 => { what = "open end"; format!("{ta}-") }
+                1 => { what = "open start"; format!("-{tb}") }
+                2 => { what = "no separator"; ta.clone() }
+                3 => { what = "other text"; rng.pick(&["-", "--", "", "2020--2021", "2020-2021-2022", "20200101 - 20200102", "-2020-"]).to_string() }
+                _ => format!("{ta}-{tb}"),
+            };
+            (kind.into(), text, what.into())
+        }
+    };
+    let via_value = rng.coin();
+    let res = g_range_result(&kind, &text, via_value);
+    w.emit(&json!({"ev": "torange", "kind": kind, "what": what, "text_shown": text, "text": cps_json(&text), "via_value": via_value,
+                   "panic": res["panic"] == true, "res": res}));
+}
+
+fn g_ctor(w: &mut NdjsonWriter) {
+    // dates: every month/day combination of four years, and out-of-range components
+    let mut emit = |what: &str, v: &V, res: Result<bool, String>| {
+        let r = match res { Ok(true) => "ok", Ok(false) => "err", Err(_) => "panic" };
+        w.emit(&json!({"ev": "ctor", "what": what, "v": v.to_json(), "res": r}));
+    };
+    for y in [1900u32, 2000, 2023, 2024, 0, 9999, 10000] {
+        for m in 0..=13u32 {
+            for d in [0u32, 1, 28, 29, 30, 31, 32] {
+                let v = da("D", y, m, d);
+                emit("DicomDate::from_ymd", &v, catch(move || DicomDate::from_ymd(y as u16, m as u8, d as u8).is_ok()));
+            }
+            let v = da("M", y, m, 0);
+            emit("DicomDate::from_ym", &v, catch(move || DicomDate::from_ym(y as u16, m as u8).is_ok()));
+        }
+        let v = da("Y", y, 0, 0);
+        emit("DicomDate::from_y", &v, catch(move || DicomDate::from_y(y as u16).is_ok()));
+    }
+    for h in [0u32, 23, 24, 99] {
+        emit("DicomTime::from_h", &tm("h", h, 0, 0, 0, 0), catch(move || DicomTime::from_h(h as u8).is_ok()));
+        for mi in [0u32, 59, 60] {
+            emit("DicomTime::from_hm", &tm("m", h, mi, 0, 0, 0), catch(move || DicomTime::from_hm(h as u8, mi as u8).is_ok()));
+            for s in [0u32, 59, 60, 61] {
+                emit("DicomTime::from_hms", &tm("s", h, mi, s, 0, 0), catch(move || DicomTime::from_hms(h as u8, mi as u8, s as u8).is_ok()));
+                for f in [0u32, 999, 1000] {
+                    emit("DicomTime::from_hms_milli", &tm("f", h, mi, s, f, 3), catch(move || DicomTime::from_hms_milli(h as u8, mi as u8, s as u8, f).is_ok()));
+                }
+                for f in [0u32, 999_999, 1_000_000] {
+                    emit("DicomTime::from_hms_micro", &tm("f", h, mi, s, f, 6), catch(move || DicomTime::from_hms_micro(h as u8, mi as u8, s as u8, f).is_ok()));
+                }
+            }
+        }
+    }
+    // date-times: time on an imprecise date; offsets beyond -1200..+1400 or with seconds
+    for (dprec, m, d) in [("Y", 0u32, 0u32), ("M", 6, 0), ("D", 6, 15)] {
+        let mut v = V::zero("DT");
+        v.dprec = dprec.into();
+        v.y = 2020;
+        v.m = m;
+        v.d = d;
+        v.tprec = "h".into();
+        v.h = 10;
+        let v2 = v.clone();
+        emit("DicomDateTime::from_date_and_time", &v, catch(move || build_dt(&v2, false).is_ok()));
+    }
+    let mut extra: Vec<Value> = vec![];
+    for off in [0i32, 14 * 3600, 14 * 3600 + 60, 15 * 3600, -12 * 3600, -12 * 3600 - 60, -18 * 3600, 3630, 86399] {
+        let mut v = V::zero("DT");
+        v.dprec = "D".into();
+        v.y = 2020;
+        v.m = 6;
+        v.d = 15;
+        v.tz = true;
+        v.off = off;
+        let v2 = v.clone();
+        emit("DicomDateTime::from_date_with_time_zone", &v, catch(move || build_dt(&v2, false).is_ok()));
+        // what does such a value encode to, and does the text parse back?
+        let v3 = v.clone();
+        if let Ok(Ok(dt)) = catch(move || build_dt(&v3, false)) {
+            let text = dt.to_encoded();
+            let back = parse_datetime_partial(text.as_bytes()).map(|b| b == dt).unwrap_or(false);
+            extra.push(json!({"ev": "ctor", "what": format!("DicomDateTime with offset {off} s; to_encoded gives {text}, which parses back to the same value: {back}"),
+                              "v": v.to_json(), "res": "ok"}));
+        }
+    }
+    for e in extra.iter() {
+        w.emit(e);
+    }
+}
+
+fn grow(n: usize, out_dir: &str) {
+    std::fs::create_dir_all(out_dir).expect("mkdir");
+    let path = format!("{out_dir}/grow.ndjson");
+    let mut w = NdjsonWriter::create(&path);
+    let mut rng = Rng::new(seed_from_env() ^ 0x6012);
+    for _ in 0..n {
+        g_todt(&mut w, &mut rng);
+    }
+    let fixed = [
+        ("DT", "0100-0500-0400+0100", "west offset in A, east offset in B, early years"),
+        ("DT", "2020-0500-2021+0100", "west offset in A, east offset in B"),
+        ("DT", "2020+0100-2021-0500", "east offset in A, west offset in B"),
+        ("DT", "2020-0500-2021-0500", "west offsets on both sides"),
+        ("DT", "2020-2021+0100", "offset on B only"),
+        ("DT", "2020+0100-2021", "offset on A only"),
+        ("DT", "2020-0500", "a year and a west offset, or two years"),
+        ("DT", "1000-1200", "two years, or a year and a west offset"),
+        ("DT", "20200101-20191231", "inverted"),
+        ("DA", "20200101-20191231", "inverted"),
+        ("TM", "1030-0930", "inverted"),
+        ("TM", "235960-", "leap second, open end"),
+        ("DA", "2020-", "open end"),
+        ("DA", "-2020", "open start"),
+        ("DA", "2020", "no separator"),
+        ("DA", "-", "separator only"),
+    ];
+    for f in fixed.iter() {
+        g_torange(&mut w, &mut rng, Some(*f));
+    }
+    for _ in 0..n {
+        g_torange(&mut w, &mut rng, None);
+    }
+    g_ctor(&mut w);
+    let lines = w.finish();
+    let mut rep = Report::new();
+    rep.cases = lines;
+    rep.extra.insert("trace".into(), Value::from(path));
+    rep.extra.insert("events".into(), Value::from(lines as u64));
+    rep.print();
+}
+
 fn main() {
     quiet_panics();
     let a = args_map();
@@ -778,6 +1075,10 @@ fn main() {
         "record" => record(
             a.get("tier").map(String::as_str).unwrap_or("quick"),
             &a.get("out").cloned().unwrap_or_else(|| "work/C12/rec".into()),
+        ),
+        "grow" => grow(
+            a.get("n").and_then(|s| s.parse().ok()).unwrap_or(3000),
+            &a.get("out").cloned().unwrap_or_else(|| "work/C12/grow".into()),
         ),
         "probe" => {
             // debugging aid: what does the code make of one range text
